@@ -70,8 +70,8 @@ def run(repo: Repo, chk: Check, thorough: bool = False) -> None:
                 it0 = it0.args[0]
             it = norm(it0)
             for name, src in local_src.items():
-                if name in it and 'posonlyargs' in src:
-                    it = it.replace(name, 'posonlyargs')
+                if it == name and 'posonlyargs' in src:
+                    it = 'posonlyargs'
             for k in ('posonlyargs', 'kwonlyargs'):
                 if k in it:
                     fld = k
@@ -80,7 +80,7 @@ def run(repo: Repo, chk: Check, thorough: bool = False) -> None:
         else:
             a0 = norm(c.args[0])
             for k in ('vararg', 'kwarg'):
-                if a0.startswith(k) or local_src.get(a0.split('.')[0], '').endswith('.' + k):
+                if local_src.get(a0.split('.')[0], '').endswith('.' + k):
                     fld = k
         if fld is None:
             chk.error(f'R14.1: cannot tell which ast.arguments field feeds {norm(c)[:50]}')
@@ -112,7 +112,7 @@ def run(repo: Repo, chk: Check, thorough: bool = False) -> None:
     pc = [c for c in calls_in(aa) if call_name(c) == 'Parameter']
     ps = [p.arg for p in aa.params()]
     ok = len(pc) == 1 and norm(pc[0].args[0]) == ps[0] and norm(pc[0].args[1]) == ps[1] and \
-        any(call_name(c) == 'append' and 'parameters' in norm(c.func) and c.args and c.args[0] is pc[0] for c in calls_in(aa))
+        any(call_name(c) == 'append' and c.args and c.args[0] is pc[0] for c in calls_in(aa))
     chk.ob('R14.1', f'{MV}._handleFunctionDef.add_arg :: one Parameter(name, kind, ...) appended per call', ok, norm(pc[0])[:80] if pc else 'no Parameter(...)', aa.loc)
     # the annotation collector covers the same five parameter lists
     gaa = repo.funcs.get(f'{MV}._annotations_from_function._get_all_args')
@@ -209,33 +209,44 @@ def run(repo: Repo, chk: Check, thorough: bool = False) -> None:
                f'`{norm(w.node)[:60]}` stores an annotation that did not pass unstring_annotation(): a string annotation would be displayed quoted',
                w.loc)
     # annotations of the signature come from the cleaned mapping
-    av = [n for n in aa.walk() if isinstance(n, ast.Assign) and any(isinstance(t, ast.Name) and t.id == 'annotation' for t in n.targets)]
-    ok = bool(av) and all('annotations' in norm(n.value) and '_AnnotationValueFormatter' in norm(n.value) for n in av) and \
-        'self._annotations_from_function(node)' in local_src.get('annotations', '')
+    annv = {k for k, v in local_src.items() if v == 'self._annotations_from_function(node)'}
+    akw = next((k.value for c in pc for k in c.keywords if k.arg == 'annotation'), None)
+    av = [n for n in aa.walk() if isinstance(n, ast.Assign) and isinstance(akw, ast.Name) and any(isinstance(t, ast.Name) and t.id == akw.id for t in n.targets)]
+    ok = bool(av) and bool(annv) and all(any(isinstance(x, ast.Name) and x.id in annv for x in ast.walk(n.value)) and
+                                        '_AnnotationValueFormatter' in norm(n.value) for n in av)
     chk.ob('R14.2', f'{MV}._handleFunctionDef.add_arg :: signature annotations come from _annotations_from_function', ok,
            'annotations[name] of the unstringed mapping' if ok else 'signature annotations bypass the unstringed mapping', aa.loc)
     chk.require('R14.2', 7)
 
     # ------------------------------------------------------------------ R14.3
-    ra = [n for n in hf.walk() if isinstance(n, ast.Assign) and any(isinstance(t, ast.Name) and t.id == 'return_annotation' for t in n.targets)]
-    ok = len(ra) == 1 and isinstance(ra[0].value, ast.IfExp) and 'Parameter.empty' in norm(ra[0].value.body) and \
-        'is_none_literal(return_type)' in norm(ra[0].value.test) and 'return_type is None' in norm(ra[0].value.test) and \
-        isinstance(ra[0].value.test, ast.BoolOp) and isinstance(ra[0].value.test.op, ast.Or)
-    chk.ob('R14.3', f'{MV}._handleFunctionDef :: `-> None` is omitted', ok, norm(ra[0].value)[:100] if ra else 'return_annotation not found', hf.loc)
     sg = [c for c in calls_in(hf) if call_name(c) == 'Signature' and c.args]
-    ok = bool(sg) and norm(sg[0].args[0]) == 'parameters' and any(k.arg == 'return_annotation' and norm(k.value) == 'return_annotation' for k in sg[0].keywords)
+    rakw = next((k.value for c in sg for k in c.keywords if k.arg == 'return_annotation'), None)
+    ra = [n for n in hf.walk() if isinstance(n, ast.Assign) and isinstance(rakw, ast.Name) and any(isinstance(t, ast.Name) and t.id == rakw.id for t in n.targets)]
+    ok = len(ra) == 1 and isinstance(ra[0].value, ast.IfExp) and 'Parameter.empty' in norm(ra[0].value.body) and \
+        isinstance(ra[0].value.test, ast.BoolOp) and isinstance(ra[0].value.test.op, ast.Or) and \
+        any(isinstance(v, ast.Call) and call_name(v) == 'is_none_literal' for v in ra[0].value.test.values) and \
+        any(isinstance(v, ast.Compare) and isinstance(v.ops[0], ast.Is) and norm(v.comparators[0]) == 'None' for v in ra[0].value.test.values)
+    chk.ob('R14.3', f'{MV}._handleFunctionDef :: `-> None` is omitted', ok, norm(ra[0].value)[:100] if ra else 'return_annotation not found', hf.loc)
+    plist = {norm(c.func.value) for c in calls_in(aa) if call_name(c) == 'append' and isinstance(c.func, ast.Attribute)}
+    ok = bool(sg) and norm(sg[0].args[0]) in plist and rakw is not None
     chk.ob('R14.3', f'{MV}._handleFunctionDef :: Signature(parameters, return_annotation=...)', ok, norm(sg[0])[:80] if sg else '?', hf.loc)
 
     # ------------------------------------------------------------------ R14.4
     ov = [c for c in calls_in(hf) if call_name(c) == 'FunctionOverload']
-    fsig = [n for n in hf.walk() if isinstance(n, ast.Assign) and any(dotted(t) == 'func.signature' for t in n.targets)]
-    ok = len(ov) == 1 and len(fsig) == 1
+    fsig = [n for n in hf.walk() if isinstance(n, ast.Assign) and any(isinstance(t, ast.Attribute) and t.attr == 'signature' for t in n.targets)
+            and not (isinstance(n.value, ast.Constant) and n.value.value is None)]
+    sigv = {t.id for n in hf.walk() if isinstance(n, ast.Assign) and isinstance(n.value, ast.Call) and call_name(n.value) == 'Signature'
+            for t in n.targets if isinstance(t, ast.Name)}
+    ok = len(ov) == 1 and len(fsig) == 1 and bool(sigv)
     if ok:
         tests_o = cfg.dominating_tests(cfg.stmt_of(ov[0]))
         tests_s = cfg.dominating_tests(fsig[0])
-        ok = any(pol and norm(t) == 'is_overload_func' for t, pol in tests_o) and any((not pol) and norm(t) == 'is_overload_func' for t, pol in tests_s) and \
-            any(k.arg == 'signature' and norm(k.value) == 'signature' for k in ov[0].keywords) and norm(fsig[0].value) == 'signature' and \
-            any(k.arg == 'primary' and norm(k.value) == 'func' for k in ov[0].keywords)
+        flags_o = {norm(t) for t, pol in tests_o if pol and isinstance(t, ast.Name)}
+        flags_s = {norm(t) for t, pol in tests_s if (not pol) and isinstance(t, ast.Name)}
+        prim = next((norm(k.value) for k in ov[0].keywords if k.arg == 'primary'), None)
+        ok = bool(flags_o & flags_s) and \
+            any(k.arg == 'signature' and norm(k.value) in sigv for k in ov[0].keywords) and norm(fsig[0].value) in sigv and \
+            prim is not None and norm(fsig[0].targets[0].value) == prim  # type: ignore[attr-defined]
     chk.ob('R14.4', f'{MV}._handleFunctionDef :: the signature built from this node goes to the overload XOR the function', ok,
            'if is_overload_func: overloads.append(FunctionOverload(signature=signature)) else: func.signature = signature' if ok else
            'an overload does not keep its own signature (or overwrites the primary one)', hf.loc)
@@ -251,18 +262,22 @@ def run(repo: Repo, chk: Check, thorough: bool = False) -> None:
                f'the decorator is expanded from `{norm(arg) if arg is not None else "?"}` only: `@typing.overload` / `@t.overload` are not recognised, '
                'the overloads become duplicate definitions and only one signature is shown', repo.loc(hf.mod, t))
     fo = repo.func('pydoctor.templatewriter.pages.format_overloads')
-    ok = any(isinstance(n, ast.For) and 'func.overloads' in norm(n.iter) for n in fo.walk()) and \
-        any(call_name(c) == 'format_function_def' and any(norm(a) == 'overload' for a in c.args) for c in calls_in(fo))
+    lps = [n for n in fo.walk() if isinstance(n, ast.For) and norm(n.iter).endswith('.overloads') and isinstance(n.target, ast.Name)]
+    ok = bool(lps) and any(call_name(c) == 'format_function_def' and any(norm(a) == lps[0].target.id for a in c.args) for c in calls_in(fo))
     chk.ob('R14.4', 'pages.format_overloads :: each overload is rendered with its own object', ok, 'format_function_def(name, is_async, overload)', fo.loc)
     ffd = repo.func('pydoctor.templatewriter.pages.format_function_def')
     ok = any(call_name(c) == 'format_signature' and c.args and norm(c.args[0]) == [p.arg for p in ffd.params()][2] for c in calls_in(ffd))
     chk.ob('R14.4', 'pages.format_function_def :: renders the signature of the object it was given', ok, 'format_signature(func)', ffd.loc)
 
     # ------------------------------------------------------------------ R14.5
-    npa = local_src.get('num_pos_args', '')
-    off = local_src.get('default_offset', '')
-    ok1 = 'len(posonlyargs)' in npa and 'len(node.args.args)' in npa and '+' in npa
-    ok2 = off.replace(' ', '') == 'num_pos_args-len(defaults)' and local_src.get('defaults', '') == 'node.args.defaults'
+    posv = {k for k, v in local_src.items() if 'posonlyargs' in v and 'len(' not in v}
+    defv = {k for k, v in local_src.items() if v == 'node.args.defaults'}
+    numv = {k: v for k, v in local_src.items() if v.count('len(') == 2 and '+' in v}
+    offv = {k: v for k, v in local_src.items() if ' - len(' in v and any(v.startswith(n + ' ') for n in numv)}
+    npa = next(iter(numv.values()), '')
+    off = next(iter(offv.values()), '')
+    ok1 = any(f'len({p})' in npa for p in posv) and 'len(node.args.args)' in npa
+    ok2 = bool(offv) and any(off == f'{n} - len({d})' for n in numv for d in defv)
     chk.ob('R14.5', f'{MV}._handleFunctionDef :: defaults belong to the last positional parameters', ok1 and ok2,
            f'num_pos_args = {npa}; default_offset = {off}' if ok1 and ok2 else
            f'offset formula changed (num_pos_args = {npa}; default_offset = {off}): defaults would be attached to the wrong parameters', hf.loc)
@@ -271,11 +286,12 @@ def run(repo: Repo, chk: Check, thorough: bool = False) -> None:
         chk.error('R14.5: get_default helper not found')
     else:
         txt = ' ; '.join(norm(s) for s in gd.node.body if not isinstance(s, ast.Assert))
-        ok = 'index -= default_offset' in txt and 'None if index < 0 else defaults[index]' in txt
+        ip = gd.params()[0].arg
+        ok = any(f'{ip} -= {o}' in txt for o in offv) and any(f'None if {ip} < 0 else {d}[{ip}]' in txt for d in defv)
         chk.ob('R14.5', f'{MV}._handleFunctionDef.get_default :: shifted index into defaults, None before the offset', ok, txt[:120], gd.loc)
     loops = [n for n in hf.walk() if isinstance(n, ast.For) and 'enumerate(' in norm(n.iter)]
-    ok = any('.args.args' in norm(l.iter) and 'start=len(posonlyargs)' in norm(l.iter).replace(' ', '') for l in loops) and \
-        any('posonlyargs' in norm(l.iter) and 'start' not in norm(l.iter) for l in loops)
+    ok = any('.args.args' in norm(l.iter) and any(f'start=len({p})' in norm(l.iter).replace(' ', '') for p in posv) for l in loops) and \
+        any(any(norm(l.iter) == f'enumerate({p})' for p in posv) for l in loops)
     chk.ob('R14.5', f'{MV}._handleFunctionDef :: positional parameters are numbered across both lists', ok,
            'enumerate(posonlyargs) ; enumerate(args, start=len(posonlyargs))' if ok else 'index of the regular arguments no longer continues after the positional-only ones', hf.loc)
     for c in calls:
